@@ -300,8 +300,18 @@ type unitStream struct {
 }
 
 // runUnitStreams runs unit streams for a property and reports disagreements as violations.
+// hookUnitKinds: unit streams that call the real code through a hook of /repo (build tag verif).
+var hookUnitKinds = map[string]bool{"bucket": true, "buffer": true, "hex": true, "clause": true, "preprocess": true}
+
+// skippedHookStreams: streams not run because the hooks do not compile (fallback build).
+var skippedHookStreams []string
+
 func runUnitStreams(pid string, seed uint64, streams []unitStream, replayDir string, tot *unitTotals) {
 	for _, s := range streams {
+		if !hooksAvailable && hookUnitKinds[s.name] {
+			skippedHookStreams = append(skippedHookStreams, pid+"/"+s.name)
+			continue
+		}
 		count := s.quick * tierScale()
 		base := newRng(seed ^ hashStr(pid+"/unit/"+s.name))
 		const batch = 20000
